@@ -118,6 +118,7 @@ def _worker_init():
 
 
 _HANGS = 0
+_WORKER_SHARDS = []          # the shards this worker process has run so far, in order (state kept by the library survives a shard)
 
 
 def _run_shard(args):
@@ -156,7 +157,11 @@ def _run_shard(args):
             err = traceback.format_exc()
     finally:
         _CTX = None
-    return shard, ctx.export(), err
+    res = ctx.export()
+    if res['viol']:
+        res['worker_history'] = list(_WORKER_SHARDS[-400:])      # what this worker ran before: needed if the violation depends on it
+    _WORKER_SHARDS.append(shard)
+    return shard, res, err
 
 
 def known_findings(pid):
@@ -193,7 +198,7 @@ def write_replay(pid, cls, case, detail, count, tier, mod):
     return path
 
 
-def write_shard_replay(pid, cls, shard, case, detail, count, tier):
+def write_shard_replay(pid, cls, shard, case, detail, count, tier, before=None):
     os.makedirs(REPLAY_DIR, exist_ok=True)
     h = hashlib.sha1((cls + json.dumps(shard, sort_keys=True, default=str)).encode()).hexdigest()[:10]
     path = os.path.join(REPLAY_DIR, '%s-shard-%s.json' % (pid, h))
@@ -201,6 +206,9 @@ def write_shard_replay(pid, cls, shard, case, detail, count, tier):
                note='history-dependent violation: the case fails only after the calls made earlier in its shard; the replay re-runs '
                     'the shard (a deterministic call sequence) from its start in a fresh interpreter',
                replay_cmd='./check --replay %s' % os.path.relpath(path, ROOT))
+    if before:
+        doc['before'] = before
+        doc['note'] += '; `before` lists the shards the same worker process had run earlier (state kept by the library survives a shard)'
     with open(path, 'w') as f:
         json.dump(doc, f, indent=1, ensure_ascii=False, default=str)
     return path
@@ -236,6 +244,15 @@ def cmd_replay(argv):
     try:
         if 'shard' in doc:
             try:
+                for b in doc.get('before', []):
+                    session.reset()
+                    try:
+                        mod.run_shard(b, _CTX, doc.get('tier', 'quick'))        # earlier shards of the same worker: only their side effects matter
+                    except HangError:
+                        raise
+                    except Exception:
+                        pass
+                    _CTX.viol = {}
                 session.reset()
                 mod.run_shard(doc['shard'], _CTX, doc.get('tier', 'quick'))
             except HangError:
@@ -271,6 +288,7 @@ def run_check(pid, tier):
     lines = []
     merged_viol = {}
     viol_shards = collections.defaultdict(list)
+    viol_history = {}
     harness_errors = []
 
     def add_viol(cls, count, case, detail, alts=()):
@@ -355,6 +373,7 @@ def run_check(pid, tier):
                 add_viol(cls, count, case, detail, alts)
                 if len(viol_shards[cls]) < 3:
                     viol_shards[cls].append(shard)
+                    viol_history[json.dumps(shard, sort_keys=True, default=str)] = res.get('worker_history', [])
 
     tot['states'] += len(stateset)
 
@@ -412,6 +431,21 @@ def run_check(pid, tier):
                 except Exception as ex_:
                     harness_errors.append(('shard-replay', str(ex_)))
                 os.remove(spath)
+            if found_shard is None:
+                # module-level state may also survive from one shard to the next inside a worker process: replay the whole
+                # sequence of shards that worker had run before the violating one
+                for sh in viol_shards.get(cls, []):
+                    before = viol_history.get(json.dumps(sh, sort_keys=True, default=str)) or []
+                    if not before:
+                        continue
+                    spath = write_shard_replay(pid, cls, sh, case, detail, count, tier, before)
+                    try:
+                        if cls in replay_in_fresh_process(spath):
+                            found_shard = spath
+                            break
+                    except Exception as ex_:
+                        harness_errors.append(('worker-history-replay', str(ex_)))
+                    os.remove(spath)
             if found_shard is None:
                 nonrepro.append((cls, path, again))
                 continue
